@@ -367,7 +367,7 @@ Inductive template :=
 Definition apply_table : list (list string * template) :=
   [ (["~"; "not"; "!"], TRet (ONeg OU));
     (["or"; "\/"; "|"; "||"], TIte OU OTrue OV);
-    (["and"; "/"; "&"; "&&"], TIte OU OV OFalse);
+    (["and"; "/\"; "&"; "&&"], TIte OU OV OFalse);
     (["#"; "xor"; "^"], TIte OU (ONeg OV) OV);
     (["=>"; "->"; "implies"], TIte OU OV OTrue);
     (["<=>"; "<->"; "equiv"], TIte OU OV (ONeg OV));
@@ -378,7 +378,7 @@ Definition apply_table : list (list string * template) :=
 
 Definition unary_ops : list string := ["not"; "~"; "!"].
 Definition binary_ops : list string :=
-  ["and"; "/"; "&"; "&&"; "or"; "\/"; "|"; "||"; "#"; "xor"; "^";
+  ["and"; "/\"; "&"; "&&"; "or"; "\/"; "|"; "||"; "#"; "xor"; "^";
    "=>"; "->"; "implies"; "<=>"; "<->"; "equiv"; "diff"; "-";
    "\A"; "forall"; "\E"; "exists"].
 Definition ternary_ops : list string := ["ite"].
